@@ -18,7 +18,8 @@ Obligations (what a VIOLATION names)
  make_part_file[fmd given].
    file_is_magic_rowgroup_footer_len_magic    content == 'PAR1' ++ <bytes make_row_group wrote> ++ F ++ le32(|F|) ++ 'PAR1' (whole file)
    file_is_a_complete_parquet_file[frame with rows] / [any frame]   on return the file holds a complete Parquet file; [any frame] is
-                                              REFUTED exactly for len(data) == 0 (finding C02-P-empty-frame-leaves-zero-byte-part-file)
+                                              REFUTED exactly for len(data) == 0 (finding C02-P-make-part-file-empty-frame-leaves-file-empty:
+                                              true of make_part_file alone; since fix f7aae56 no caller hands it an empty frame)
    footer_serialised_exactly_once             F is the one serialisation of a FileMetaData;  footer_is_serialised_from_a_copy
    footer.row_groups_is_exactly_the_row_group_written      row_groups == [rg], rg the value make_row_group returned in this call
    footer.num_rows_is_the_rows_of_this_file   num_rows == rg.num_rows (== len(data))              <- seeded change C02-m4
@@ -45,8 +46,9 @@ Obligations (what a VIOLATION names)
    loop.row_groups_is_old_followed_by_written.on_entry / .preserved   (every list bound to fmd.row_groups and fmd.row_groups itself)
    part.written_into_the_file_just_opened_from_this_frame_with_dataset_schema_and_fmd, part.file_opened_under_the_root,
    part.every_chunk_gets_the_part_name_relative_to_the_root,
-   part.file_opened_is_written_as_a_part_file[any frame] and no_attr_of_None[rg.columns]: REFUTED for an empty frame (same finding;
-   C07 twin C07-P-empty-frame-append-crashes-multi-file)
+   part.file_opened_is_written_as_a_part_file[any frame], no_attr_of_None[rg.columns]: were REFUTED for an empty frame before fix f7aae56
+   (records fixed-C02-empty-frame-zero-byte-part-file / fixed-C07-empty-frame-append-crashes); part.empty_frame_opens_no_file_and_appends_nothing:
+   a frame without rows is skipped before any file is opened - `written` in the invariant are the frames WITH rows, in order
    partition.writer_gets_frame_columns_root_partname_fmd
    closing.row_groups_is_old_followed_by_written, closing.num_rows_is_sum_over_all_row_groups,
    closing.metadata_holds_all_row_groups_old_then_new, closing.metadata_num_rows_is_sum_over_its_row_groups,
@@ -81,9 +83,8 @@ J = z3.Int("j_skolem")          # list position
 MAGIC = Bts.const(b"PAR1")
 _ids = itertools.count(1)
 
-FID_EMPTY = "C02-P-empty-frame-leaves-zero-byte-part-file"
+FID_EMPTY = "C02-P-make-part-file-empty-frame-leaves-file-empty"      # what is left of the empty-frame finding after fix f7aae56
 FID_NOFMD = "C02-P-make-part-file-default-fmd-raises"
-FID_EMPTY_C07 = "C07-P-empty-frame-append-crashes-multi-file"
 
 
 # ---- lists of row groups ----------------------------------------------------------------------------------------------------
@@ -1183,9 +1184,17 @@ def _run_write_multi(ctx, funcs, timeout, append, partition, scheme, inv_fmd):
                         None if ok else {"calls": len(poc), "opens": len(opens)}, 0.0, "trace",
                         "partition_on_columns(this frame, partition_on, dn, part, fmd, compression, open_with, mkdirs, with_field = hive, stats)")
                 return
+            if not opens and not mpf and solve(base + [frame.n != 0], timeout)[0] == PROVED:
+                # this path is the empty frame's (fix f7aae56: `if len(row_group) == 0: continue` before the file is opened): nothing may
+                # have been opened, written or appended - `written` are the frames WITH rows, in order (the invariant above says so)
+                touched = [e[0] for e in evs if e[0] in ("list_append", "list_extend", "mkdirs", "wcm", "chunk_setattr", "rg_setattr", "setattr")]
+                res.add(tag + "part.empty_frame_opens_no_file_and_appends_nothing", PROVED if not touched else REFUTED,
+                        None if not touched else {"effects": touched}, 0.0, "trace+z3",
+                        "a frame without rows is skipped: no file is opened for it, nothing is appended to the row-group list")
+                return
             ok = len(opens) == 1 and len(mpf) == 1
-            detail = "exactly one file is opened per frame and make_part_file is called once, on it, with the frame of this iteration, " \
-                     "fmd.schema, compression, fmd=fmd, stats"
+            detail = "exactly one file is opened per frame with rows and make_part_file is called once, on it, with the frame of this " \
+                     "iteration, fmd.schema, compression, fmd=fmd, stats"
             if ok:
                 o, m_ = opens[0], mpf[0]
                 a, kw = m_[1], m_[2]
